@@ -67,6 +67,13 @@ def run(ctx):
         mapping = {'a': 'zeta', 'b': 'alpha'}
         base.append(wf)
         variants.append({'perm': permute(wf, rng), 'ren': rename_wf(wf, mapping), 'mapping': mapping})
+    reps = {}
+    for name, wf in pc.invalid_next_to_any_field_shapes():
+        # texts that must be refused - every time
+        mapping = {'a': 'zeta', 'b': 'alpha'}
+        base.append(wf)
+        variants.append({'perm': permute(wf, rng), 'ren': rename_wf(wf, mapping), 'mapping': mapping})
+        reps[len(base) - 1] = 24 if ctx.quick else 60
     allwfs = base + [v['ren'] for v in variants]
     ok, oracle, st, out, conf = pc.prepare_oracle(ctx, allwfs)
     if not ok:
@@ -76,7 +83,7 @@ def run(ctx):
     binary = ctx.binary()
     jobs = []
     for i, wf in enumerate(base):
-        jobs.append(('base', i, wf, rep))
+        jobs.append(('base', i, wf, reps.get(i, rep)))
         jobs.append(('perm', i, variants[i]['perm'], 2))
         jobs.append(('ren', i, variants[i]['ren'], 2))
     with cf.ThreadPoolExecutor(max_workers=max(2, vlib.NCPU - 2)) as ex:
